@@ -1332,6 +1332,19 @@ class PartialARBF(DiffARBF):
                 Y = Y[:, self.active_dims]
         return super(PartialARBF, self).__call__(X, Y, eval_gradient, get_sub_kernels)
 
+    def k_and_deriv(self, X, Y=None):
+        if not np.iterable(self.scale):
+            self.scale = [self.scale] * (self.order + 1)
+        if (not hasattr(self, "active_dims")) or (self.active_dims is None):
+            X = X[:, self.start :]
+            if Y is not None:
+                Y = Y[:, self.start :]
+        else:
+            X = X[:, self.active_dims]
+            if Y is not None:
+                Y = Y[:, self.active_dims]
+        return super(PartialARBF, self).k_and_deriv(X, Y)
+
 
 class SingleRBF(RBF):
     """
